@@ -413,3 +413,36 @@ M('blist_pop_keeps_empty', 'C10', L,
             self._balance_list(list_idx)""",
   """            ret = lists[list_idx].pop(rel_idx - (list_idx == 3 and rel_idx > 0))
             self._balance_list(list_idx)""")
+
+# ---------------------------------------------------------------- C20
+M('tc_compaction_ge', 'C20', C,
+  """                                    if sum(v) > self._cur_bucket}""",
+  """                                    if sum(v) > self._cur_bucket + 1}""")
+M('tc_entry_bucket_cur', 'C20', C,
+  """            self._count_map[key] = [1, self._cur_bucket - 1]""",
+  """            self._count_map[key] = [1, self._cur_bucket - 2]""")
+M('tc_compaction_every_w_plus_1', 'C20', C,
+  """        if self.total % self._thresh_count == 0:""",
+  """        if self.total % (self._thresh_count + 1) == 0:""")
+M('tc_compaction_keeps_more', 'C20', C,
+  """                                    if sum(v) > self._cur_bucket}""",
+  """                                    if sum(v) >= self._cur_bucket}""")
+M('tc_most_common_ascending', 'C20', C,
+  """        ret = sorted(self.iteritems(), key=lambda x: x[1], reverse=True)""",
+  """        ret = sorted(self.iteritems(), key=lambda x: x[1], reverse=(n is None))""")
+M('tc_uncommon_off', 'C20', C,
+  """        return self.total - self.get_common_count()""",
+  """        return self.total - self.get_common_count() - (self._cur_bucket > 3)""")
+M('tc_update_map_once', 'C20', C,
+  """                for key, count in iterable.items():
+                    for i in range(count):
+                        self.add(key)""",
+  """                for key, count in iterable.items():
+                    for i in range(min(count, 3)):
+                        self.add(key)""")
+M('tc_no_compaction_after_many', 'C20', C,
+  """        if self.total % self._thresh_count == 0:""",
+  """        if self.total % self._thresh_count == 0 and self._cur_bucket < 6:""")
+M('tc_elements_once', 'C20', C,
+  """        repeaters = itertools.starmap(itertools.repeat, self.iteritems())""",
+  """        repeaters = itertools.starmap(itertools.repeat, ((k, min(c, 4)) for k, c in self.iteritems()))""")
